@@ -93,7 +93,7 @@ func init() {
 		Run:      runC17,
 		Required: func(string) []string { return []string{"multi-hunk", "single-hunk", "empty-diff"} },
 		Assume:   []string{"reference equality = canonical forms", "MERGE only on null-free documents", "Setkeys on arrays whose member objects carry the key with unique values"},
-		Budget:   budget(4*time.Minute, 40*time.Minute),
+		Budget:   budget(7*time.Minute, 40*time.Minute),
 	})
 }
 
